@@ -7,7 +7,7 @@ COQ_TARGETS = ["Properties/C10.vo", "Client/MuxCases.vo"]
 LEVEL = "proof"
 TECHNIQUE = ("Coq: inductive invariant over a small-step interleaving model of sendRecv/waitAndRecv/handleOne (all schedules, all transport events), "
              "allocator invariant over all disciplined Get/Put sequences, fid discipline over all event sequences; model tied to the code by go2coq "
-             "(send-error path of sendRecv) and by differential runs of the real pool and the real Client against a scripted fake server")
+             "(send-error path of sendRecv; pool.Get/Put TRANSLATED and proved equal to the allocator model, C10_source_pool_*) and by differential runs of the real pool and the real Client against a scripted fake server")
 LEVEL_TEXT = ("Theorems for every reachable state of the interleaving model (any number of calls, any schedule, replies in any order, unknown tags, "
               "wrong types, receive errors, short frames, send failures): distinct tags/slots, one owner per pending slot, no blocked send on done, "
               "routing / no foreign data, fail-all, stuck-freedom, later calls fail on a dead connection; allocator and fid-freshness theorems for all operation sequences. Every run re-checks the proofs, "
@@ -31,6 +31,7 @@ TRUSTED_BASE = [
     "go2coq ClientGen (sendRecv: registers before send / withdraws / does not recycle a withdrawn response; handleOne re-check; waitAndRecv token hand-over read from the "
     "statement structure (paths through the token branch: waitandrecv_rechecks_done); releaseFID policy (classified, not text-compared); Get/Put sites; whole bodies as reviewed text)",
     "props/C10.py to_case (trace strings emitted by the harness are model actions: the claim that a forced schedule IS that trace rests on the harness's events), helpers vhReadFrame/vhFrame",
+    "go2coq PoolGen (symbolic execution of pool.Get / pool.Put into Gallina over the Go slice; Client/PoolTie.v proves the result equal to Pool.pool_get / pool_put for every pool state and records the mutex bracket; Client/PoolPrims.v = hand models of index / re-slice / append)",
     "hand-written models Client/Pool.v, Client/Mux.v, Client/Fids.v, tied by harness/p9/c10_test.go + Client/MuxCases.v",
 ]
 
